@@ -3,8 +3,15 @@
    run (VL [VN kind; VL steps])   kind: 0 ssh | 1 tls | 2 unix;  step: 0 HFailEarly | 1 HFailAuthd | 2 HClose | 3 HMgrClose
    -> VL [ VL [flags after each step]; flags after the successful connect;
            VL [VN connected; VN pc_code] of the LTS after the worker alone processed a peer close of the idle session ]
-   flags = VL [VN closing; VN connected] *)
-From NC Require Import Model.Base Model.SessionLTS Model.SessionHist.
+   flags = VL [VN closing; VN connected]
+
+   Model/SessionEnd.v (tools/harness/real_apps.py, real_later.py):
+   run (VL [VN 10; VL snapshot; VL live0])      listener = VL [VN id; VN role (0 reply | 1 notification | 2 application);
+                                                               VL removes; VL adds; VN raises]
+   -> VL [VL visited; VL caught; VL live; VL visited by the variant with one try around the loop]
+   run (VL [VN 11; VL caps; VN sid; VN closes; VL [VL needs ...]])
+   -> VL [VL [VN connected; VN caps known; VN id known]; VL [outcome of each call: 0 sent | 1 refused | 2 missing | 3 other]] *)
+From NC Require Import Model.Base Model.SessionLTS Model.SessionHist Model.SessionEnd.
 
 Definition dec_kind (v : val) : option tkind :=
   match v with VN 0 => Some KSsh | VN 1 => Some KTls | VN 2 => Some KUnix | _ => None end.
@@ -22,8 +29,54 @@ Definition pc_code (p : wpc) : N :=
   | WErrSnap _ => 6 | WErrClear _ _ => 7 | WErrDeliver _ _ => 8 | WClosed => 9 | WExited => 10
   end.
 
+Fixpoint dec_ns (l : list val) : option (list N) :=
+  match l with
+  | [] => Some []
+  | VN n :: l' => match dec_ns l' with Some ns => Some (n :: ns) | None => None end
+  | _ => None
+  end.
+Definition dec_role (v : val) : option lrole :=
+  match v with VN 0 => Some RReply | VN 1 => Some RNotif | VN 2 => Some RApp | _ => None end.
+Definition dec_lsn (v : val) : option lsn :=
+  match v with
+  | VL [VN i; r; VL rm; VL ad; VN ra] =>
+      match dec_role r, dec_ns rm, dec_ns ad with
+      | Some r, Some rm, Some ad => Some {| l_id := i; l_role := r; l_removes := rm; l_adds := ad; l_raises := negb (N.eqb ra 0) |}
+      | _, _, _ => None
+      end
+  | _ => None
+  end.
+Fixpoint dec_lsns (l : list val) : option (list lsn) :=
+  match l with
+  | [] => Some []
+  | v :: l' => match dec_lsn v, dec_lsns l' with Some x, Some xs => Some (x :: xs) | _, _ => None end
+  end.
+Fixpoint dec_needs (l : list val) : option (list (list N)) :=
+  match l with
+  | [] => Some []
+  | VL ns :: l' => match dec_ns ns, dec_needs l' with Some x, Some xs => Some (x :: xs) | _, _ => None end
+  | _ => None
+  end.
+Definition enc_ns (l : list N) : val := VL (map VN l).
+Definition is_some {A} (o : option A) : bool := match o with Some _ => true | None => false end.
+
 Definition run (v : val) : val :=
   match v with
+  | VL [VN 10; VL snap; VL live0] =>
+      match dec_lsns snap, dec_ns live0 with
+      | Some snap, Some live0 =>
+          let b := dispatch_error snap live0 in
+          VL [enc_ns (visited b); enc_ns (caught b); enc_ns (live b); enc_ns (visited (dispatch_error_outer snap live0))]
+      | _, _ => verr 3
+      end
+  | VL [VN 11; VL caps; VN sid; VN n; VL calls] =>
+      match dec_ns caps, dec_needs calls with
+      | Some caps, Some calls =>
+          let o := closes (N.to_nat n) (connected_to caps sid) in
+          VL [VL [vbool (e_connected o); vbool (is_some (e_caps o)); vbool (is_some (e_sid o))];
+              VL (map (fun needs => VN (rout_code (request needs o))) calls)]
+      | _, _ => verr 4
+      end
   | VL [k; VL hs] =>
       match dec_kind k, dec_steps hs with
       | Some k, Some h =>
